@@ -1,5 +1,6 @@
 import Driver.Util
 import SonicModel.Spec.Typed
+import SonicModel.Impl.De
 namespace Driver
 open Sonic Sonic.Spec
 
@@ -49,9 +50,16 @@ def c04 (args : List String) : String :=
     | some id, some buf =>
       (match tyOf id with
        | some ty =>
+         let shw (v : Val) : String := if id == 12 then String.ofList (v.render.map fun c => Char.ofNat c.toNat) else hex v.render
+         let m : String :=
+           if !(utf8Valid buf) then "R"
+           else match Sonic.De.deDoc ty buf with
+             | .ok v _ => shw v
+             | .err => "R"
+             | .fuel => "FUEL"
          (match decodeDoc ty buf with
-          | some v => "spec=" ++ (if id == 12 then String.ofList (v.render.map fun c => Char.ofNat c.toNat) else hex v.render)
-          | none => "spec=R")
+          | some v => "spec=" ++ shw v
+          | none => "spec=R") ++ " model=" ++ m
        | none => "spec=NOTMODELLED")
     | _, _ => "bad-args"
   | _ => "bad-args"
